@@ -161,9 +161,10 @@ class OneOfT(Ty):
 
 
 class FutureT(Ty):
-    def __init__(self, pending=None, result=None):
+    def __init__(self, pending=None, result=None, promise=None):
         self.pending = pending
         self.result = result
+        self.promise = promise
 
     def fresh(self, I, name):
         st = I.ctx.fresh_int(name + ".state")
@@ -172,6 +173,8 @@ class FutureT(Ty):
             I.ctx.assume(st == 0)
         f = SFuture(st)
         f.ghost["name"] = name
+        if self.promise is not None:
+            f.ghost["promise"] = self.promise
         if self.result is not None:
             f.result = self.result.fresh(I, name + ".result")
         f.exc = SObj(Exception, {"args": ()}, tag="unknown-exception")
@@ -319,12 +322,13 @@ class T:
 # class specs
 # ---------------------------------------------------------------------------
 class ClassSpec:
-    def __init__(self, qualname, fields, invariants=None, interference=None, stable=None):
+    def __init__(self, qualname, fields, invariants=None, interference=None, stable=None, rely=None):
         self.qualname = qualname
         self.fields = fields
         self.invariants = invariants or []  # list of (id, lambda self: ...)
         self.interference = interference  # list of field names other actions may change at awaits
         self.stable = stable or []
+        self.rely = rely or []
         self._cls = None
 
     @property
@@ -436,6 +440,24 @@ class Contract:
         self.notes = []
         self.assume_at_call = True
         self.setup = None
+        self.cancellable = True
+        self.await_asserts = []  # (id, lambda) checked at every suspension point
+
+    def observe(self, lam):
+        """lam(self, ...) -> dict of values recorded in fx as ("observe", where, dict) at every
+        resume from a suspension and just before every call of a contracted callee."""
+        self.observe_ = lam
+        return self
+
+    observe_ = None
+
+    def await_assert(self, cid, lam):
+        self.await_asserts.append((cid, lam))
+        return self
+
+    def stable(self, lam):
+        self.stable_during.append(("stable", lam))
+        return self
 
     # declaration API ------------------------------------------------------
     def self(self, spec, **overrides):
